@@ -144,9 +144,17 @@ func c06Addr(c *core.Ctx, r *gen.Rand, k addrKind, port int, fam int) {
 	}
 	// library encoder
 	m := new(stun.Message)
-	_ = m.Build(stun.BindingSuccess, stun.NewTransactionIDSetter(tid))
-	if r.Bool() {
-		m.Add(stun.AttrSoftware, r.Bytes(r.Intn(9)))
+	fieldTID := r.Chance(1, 4)
+	if fieldTID {
+		// header written first (with another id), the transaction id then assigned to the field and encoded at the end
+		m.TransactionID = r.TID()
+		m.WriteHeader()
+		m.TransactionID = tid
+	} else {
+		_ = m.Build(stun.BindingSuccess, stun.NewTransactionIDSetter(tid))
+		if r.Bool() {
+			m.Add(stun.AttrSoftware, r.Bytes(r.Intn(9)))
+		}
 	}
 	ipCopy := append(net.IP(nil), ip...)
 	if err := k.set(m, ip, port, typ); err != nil {
@@ -156,6 +164,9 @@ func c06Addr(c *core.Ctx, r *gen.Rand, k addrKind, port int, fam int) {
 	}
 	if !bytes.Equal(ip, ipCopy) {
 		c.Violate("setter-mutated-input", "setter-mutated-input:"+k.name, detail("IP changed by AddTo"))
+	}
+	if fieldTID {
+		m.Encode() // now the wire carries the assigned id; the address must have been XOR-ed with that one
 	}
 	var want []byte
 	if k.xor {
@@ -319,9 +330,12 @@ func c06(c *core.Ctx) {
 	// (3) ERROR-CODE: every code 300..699 with reasons of several lengths
 	c.Section("error-codes", 400, func(i int64, r *gen.Rand) {
 		code := 300 + int(i)
-		for _, n := range []int{0, 1, 2, 3, r.Intn(128), r.Intn(764), 763} {
+		for ri, n := range []int{0, 1, 2, 3, r.Intn(128), r.Intn(764), 763, 1 + r.Intn(40), 4} {
 			c.Eval(1)
 			reason := r.Bytes(n)
+			if ri >= 7 {
+				reason[n-1] = 0 // a reason whose last octet is NUL is still part of the value
+			}
 			detail := map[string]interface{}{"code": code, "reason_len": n}
 			m := new(stun.Message)
 			_ = m.Build(stun.BindingError, stun.NewTransactionIDSetter(r.TID()))
